@@ -385,7 +385,67 @@ fn run_wrapped_thread(prog: &Program, noise_n: usize, seed: u64, thorough: bool)
     }
 }
 
+/// two managers alive at the same time, fed alternately: the program on one, its twin over a shifted alphabet on
+/// the other (same shapes, same ids, different languages). Nothing may leak from one to the other.
+fn run_interleaved(prog: &Program, rep: &mut Report, seed: u64, thorough: bool) -> bool {
+    let c = cfg(thorough);
+    let twin = prog.twin();
+    let case = prog.to_text();
+    let (mut m1, mut m2) = (ReManager::new(), ReManager::new());
+    let (mut t1, mut t2): (Vec<RegLan>, Vec<RegLan>) = (Vec::new(), Vec::new());
+    let (mut r1, mut r2) = (Vec::new(), Vec::new());
+    for k in 0..prog.ops.len() {
+        let (d1, d2) = (prog.ops[k].denote(&r1), twin.ops[k].denote(&r2));
+        let a = guard(|| prog.ops[k].apply_mgr(&mut m1, &t1));
+        let b = guard(|| twin.ops[k].apply_mgr(&mut m2, &t2));
+        match (a, b) {
+            (Ok(x), Ok(y)) => {
+                t1.push(x);
+                t2.push(y);
+                r1.push(d1);
+                r2.push(d2);
+                // queries on one manager between two constructions on the other
+                if k % 3 == 0 {
+                    let _ = guard(|| (x.included_in(t1[k / 2]), m1.is_empty_re(x), y.included_in(t2[k / 2])));
+                }
+            }
+            _ => break,
+        }
+    }
+    rep.inc("interleaved_manager_pairs");
+    let mut pts = prog.all_points();
+    pts.extend(twin.all_points());
+    let mut ctx = ReCtx::new(&pts, c.budget);
+    for (which, terms, refs, m) in [("first", &t1, &r1, &mut m1), ("second (twin alphabet)", &t2, &r2, &mut m2)] {
+        for k in 0..terms.len() {
+            let rs = ctx.sref(terms[k]);
+            if let Ok((da, ds)) = ctx.pair(&refs[k], &rs) {
+                rep.inc("interleaved_languages_compared");
+                if let Some(cex) = da.diff(&ds) {
+                    rep.violation("history-language", "history-language:interleaved-managers", format!("two managers fed alternately: step {} on the {} manager yields {} whose language differs from the construction on {}", k, which, term_text(terms[k]), show_str(&ctx.atoms().word(&cex))), KIND_MGR, &case, seed);
+                    return false;
+                }
+            }
+            // a positive inclusion answer between two results of this manager must hold
+            let j = (k * 7 + 3) % terms.len();
+            if terms[k].included_in(terms[j]) {
+                if let Ok((dk, dj)) = ctx.pair(&refs[k], &refs[j]) {
+                    if let Some(cex) = dk.not_included_from(dk.start, &dj, dj.start) {
+                        rep.violation("history-answer", "history-answer:interleaved-included_in", format!("two managers fed alternately: on the {} manager ({}).included_in({}) = true but {} is only in the first", which, term_text(terms[k]), term_text(terms[j]), show_str(&ctx.atoms().word(&cex))), KIND_MGR, &case, seed);
+                        return false;
+                    }
+                }
+            }
+            let _ = &m;
+        }
+    }
+    true
+}
+
 pub fn check_program(prog: &Program, seed: u64, thorough: bool, rep: &mut Report) {
+    if !run_interleaved(prog, rep, seed, thorough) {
+        return;
+    }
     let mut rng = Rng::derive(seed, 0xC07, 1);
     // (a) fresh manager, (b) histories with increasing noise
     let noises: Vec<usize> = if thorough { vec![0, 5, 40, 150, 400, 400] } else { vec![0, 10, 120, 400] };
